@@ -220,21 +220,27 @@ func utcRule(p *core.Program, r *core.Report, rule string) {
 		r.Check(bad == "" && n >= 6, rule, short(fn), p.Pos(fn.Pos()), true, fmt.Sprintf("%d calendar accessors, all on UTC times", n), bad)
 	}
 	if fn := mustFn(p, r, rule, "encoding/igc", "(*parser).parseB"); fn != nil {
+		// every time.Date call of the package's decoder side (parseB and whatever helpers the timestamp was moved to)
 		bad := ""
 		n := 0
-		for _, c := range eng.Calls(fn) {
-			if !eng.IsCallTo(c, "time", "Date") {
+		for _, f := range pkgFuncs(p, "encoding/igc") {
+			if strings.Contains(f.String(), "Encoder") {
 				continue
 			}
-			n++
-			loc := c.Common().Args[len(c.Common().Args)-1]
-			ld, ok := loc.(*ssa.UnOp)
-			g, isG := (ssa.Value)(nil), false
-			if ok {
-				g, isG = ld.X.(*ssa.Global)
-			}
-			if !isG || g.Name() != "UTC" {
-				bad = "time.Date at " + p.Pos(c.Pos()) + " does not use time.UTC"
+			for _, c := range eng.Calls(f) {
+				if !eng.IsCallTo(c, "time", "Date") {
+					continue
+				}
+				n++
+				loc := c.Common().Args[len(c.Common().Args)-1]
+				ld, ok := loc.(*ssa.UnOp)
+				g, isG := (*ssa.Global)(nil), false
+				if ok {
+					g, isG = ld.X.(*ssa.Global)
+				}
+				if !isG || g.Name() != "UTC" {
+					bad = "time.Date at " + p.Pos(c.Pos()) + " does not use time.UTC"
+				}
 			}
 		}
 		r.Check(bad == "" && n >= 1, rule, short(fn), p.Pos(fn.Pos()), true, fmt.Sprintf("%d time.Date calls, all in time.UTC", n), bad)
